@@ -66,6 +66,21 @@ def campaign(c):
         for ln in range(0, L + 1):
             for call in itertools.product(opts, repeat=ln):
                 check(c, f, list(call), 'exh%d' % ln)
+    # the whole type relation: every parameter (and the variable tail) of every function x every one of the 15 value types,
+    # by name and by position, the other mandatory parameters supplied correctly
+    for f in lib.funcs:
+        pos = [a for a in f['args'] if a['kind'] == 'pos']
+        base = [(None, values_for(f, a['name'])[0]) for a in pos]
+        for i, a in enumerate(f['args']):
+            for u in ALLT:
+                if a['kind'] == 'pos':
+                    call = list(base); call[i] = (None, REPS[u]); check(c, f, call, 'matrix')
+                    call = [(b['name'], v) for b, (_, v) in zip(pos, base)]; call[i] = (a['name'], REPS[u]); check(c, f, call, 'matrix')
+                else:
+                    check(c, f, base + [(a['name'], REPS[u])], 'matrix')
+        if f['collect_type'] != 'Void':
+            for u in ALLT:
+                check(c, f, base + [(None, REPS[u])], 'matrix'); check(c, f, base + [(None, REPS[u]), (None, REPS[u])], 'matrix')
     c.extra['exhaustive_space'] = 'all %d signatures x call shapes of length <= %d over (5 name choices x 3 values)' % (len(lib.funcs), L)
     m = 3000 if c.quick else 100000
     for i in range(m):
